@@ -260,7 +260,7 @@ func obligationAsserts(fr *FuncResult, o *Obligation) []*Term {
 		n = len(fr.Assumes)
 	}
 	asserts = append(asserts, fr.Assumes[:n]...)
-	asserts = append(asserts, o.PC, Not(o.Goal))
+	asserts = append(asserts, o.PC, skolemizeNegGoal(o.Goal))
 	return asserts
 }
 
